@@ -132,10 +132,15 @@ func (m SerializedMessage) Headers() map[string][]byte {
 		n += 2
 		key := string(m[n : n+int32(keySize)])
 		n += int32(keySize)
-		valueSize := encoding.Uint32(m[n:])
+		valueSize := int32(encoding.Uint32(m[n:]))
 		n += 4
-		value := m[n : n+int32(valueSize)]
-		n += int32(valueSize)
+		// A nil header value is stored with size -1, as nil keys and values
+		// are.
+		var value []byte
+		if valueSize != -1 {
+			value = m[n : n+valueSize]
+			n += valueSize
+		}
 		headers[key] = value
 	}
 	return headers
